@@ -1,6 +1,7 @@
 import Pep508.Driver.Marker
 import Pep508.Model.MarkerParse
 import Pep508.Model.ReqParse
+import Pep508.Model.Dnf
 namespace Pep508.Driver
 open Pep508
 
@@ -161,6 +162,44 @@ def runUrlHelpers (args : List String) : String :=
       let ext := match splitExtras t with | some (a, b) => s!"{hexOfChars a}:{hexOfChars b}" | none => "none"
       s!"scheme={sch} extras={ext} archive={if looksLikeArchive t then 1 else 0}"
     | none => "bad-op"
+  | _ => "bad-op"
+
+end Pep508.Driver
+
+namespace Pep508.Driver
+open Pep508
+
+/-- `norm=spelled,…` (release lists with dots; `-` = empty table) -/
+def parseSpell (s : String) : Option Spell :=
+  if s == "-" then some id else do
+    let pairs ← (s.splitOn ",").mapM fun kv =>
+      match kv.splitOn "=" with
+      | [k, v] => do let k ← parseRel k; let v ← parseRel v; pure (stripZeros k, v)
+      | _ => none
+    pure fun r => match pairs.find? (·.1 == r) with
+      | some (_, v) => v
+      | none => if r.isEmpty then [0] else r
+
+def showClause (c : List MExpr) : String := " & ".intercalate (c.map showMExpr)
+
+/-- `dnf <term> <spell>` ↦ clauses -/
+def runDnf (args : List String) : String :=
+  match args with
+  | [t, sp] =>
+    match parseTerm t, parseSpell sp with
+    | some tr, some spell =>
+      let d := toDnf spell tr
+      if d.isEmpty then "empty" else " | ".intercalate (d.map showClause)
+    | _, _ => "bad-op"
+  | _ => "bad-op"
+
+/-- `show <term> <spell>` ↦ hex of the `Display` text (`-` for TRUE, which has no contents) -/
+def runShow (args : List String) : String :=
+  match args with
+  | [t, sp] =>
+    match parseTerm t, parseSpell sp with
+    | some tr, some spell => if tr == .leaf true then "none" else hexOfBytes' (bytesOfString (showMarker spell tr))
+    | _, _ => "bad-op"
   | _ => "bad-op"
 
 end Pep508.Driver
